@@ -345,9 +345,9 @@ func genXchg(r *vlib.R, emit func(string)) {
 		case 4:
 			c = vlib.Pick(r, []int{3, 255, 0})
 		case 5:
-			return fmt.Sprintf("%d:", id) // no question
+			return fmt.Sprintf("%d%s:", id, hdrFlags(r)) // no question
 		case 6:
-			return fmt.Sprintf("%d:%s/%d/1+%s/%d/1", id, name, t, name, t) // two questions
+			return fmt.Sprintf("%d%s:%s/%d/1+%s/%d/1", id, hdrFlags(r), name, t, name, t) // two questions
 		case 7:
 			return "e"
 		case 8:
@@ -359,7 +359,7 @@ func genXchg(r *vlib.R, emit func(string)) {
 		if !packable(name) {
 			name = "other." + zone
 		}
-		return fmt.Sprintf("%d:%s/%d/%d", id, name, t, c)
+		return fmt.Sprintf("%d%s:%s/%d/%d", id, hdrFlags(r), name, t, c)
 	}
 	var cands []string
 	n := r.Intn(5)
@@ -374,6 +374,10 @@ func genXchg(r *vlib.R, emit func(string)) {
 			cands = append(cands, mk(vlib.Pick(r, []int{1, 1, 1, 9})))
 		}
 	}
+	if proto == "tcp" && r.Chance(1, 2) {
+		// a stream delivers exactly one reply: put every kind of mismatch first
+		cands = append([]string{mk(vlib.Pick(r, []int{2, 3, 4, 5, 6, 9, 1, 0}))}, cands...)
+	}
 	if r.Chance(4, 5) {
 		cands = append(cands, mk(0))
 	}
@@ -381,6 +385,27 @@ func genXchg(r *vlib.R, emit func(string)) {
 		cands = append(cands, mk(r.Intn(10)))
 	}
 	emit(fmt.Sprintf("xchg run %s %d %s %s", proto, qid, q, strings.ReplaceAll(listOrDash(cands), ",", ";")))
+}
+
+// hdrFlags: header bits the exchange guards must not be swayed by (TC above all).
+func hdrFlags(r *vlib.R) string {
+	if !r.Chance(2, 5) {
+		return ""
+	}
+	out := ""
+	if r.Chance(2, 3) {
+		out += "t"
+	}
+	if r.Chance(1, 4) {
+		out += "a"
+	}
+	if r.Chance(1, 4) {
+		out += vlib.Pick(r, []string{"n", "s", "f"})
+	}
+	if r.Chance(1, 10) {
+		out += "x"
+	}
+	return out
 }
 
 // packable: every label 1..63 octets so that the wire codec accepts the name.
